@@ -87,6 +87,19 @@ def generate(rng, tier):
             ops.append({"t": round(t, 6), "op": "send", "p": "X", "msg": {"qr": 1, "an": [x.to_json() for x in lst]}})
         if uni:
             ops[-1]["dst"] = ["10.0.0.1", 40000]
+        elif rng.random() < 0.2:
+            # at the same moment something else reaches ANOTHER socket of the instance (its unicast socket, when it has
+            # one): the event loop reads one datagram per socket and iteration, so this one is read between the two
+            # copies of the datagram above
+            comp = rng.choice(["junk", "query", "response"])
+            if comp == "junk":
+                ops.append({"t": round(t, 6), "op": "send", "p": "X", "dst": ["10.0.0.1", 5353], "raw": rng.choice(["00", "ff" * 13])})
+            elif comp == "query":
+                ops.append({"t": round(t, 6), "op": "send", "p": "X", "dst": ["10.0.0.1", 5353],
+                            "msg": {"q": [["nobody.local.", 1, 0]], "id": rng.randrange(1, 60000)}})
+            else:
+                ops.append({"t": round(t, 6), "op": "send", "p": "X", "dst": ["10.0.0.1", 5353],
+                            "msg": {"qr": 1, "an": [ext.txt.to_json()]}})
         if rng.random() < (0.5 if uni else 0.15):
             # the very same datagram again (a querier that retries, a responder that repeats itself), after the
             # one-second memory of the duplicate guard or within it
